@@ -434,6 +434,14 @@ class Impl:
             buffered = len(self.expected) - self.pos
             if buffered < low and self.paused():
                 self._flag("resume", f"{tok} left {buffered} bytes buffered (< low water {low}) with the transport still paused")
+        if obs.startswith("D:") and self.coro is None and self.exact and not self.unread_used and not self.eof_fed \
+                and self.limit >= 0 and name not in ("s", "U"):
+            # on an open stream the buffer only grows through feed_data (also when the parser feeds held input
+            # from inside a read), which pauses above high water; nothing resumes while size >= low water
+            high = s.get_read_buffer_limits()[1]
+            buffered = len(self.expected) - self.pos
+            if buffered > high and not self.paused():
+                self._flag("pause", f"{tok} left {buffered} bytes buffered (> high water {high}) with the transport reading")
         if self.coro is not None and name not in ("F", "B", "E", "Z", "X", "Q", "QE", "n", "s") and obs in ("B", "P"):
             blocked = self.fut is not None and not self.fut.done() if not self.use_tasks else True
             if blocked and s.exception() is not None:
